@@ -200,7 +200,7 @@ fn build_binary_op(
         for field in fields {
             let field_ty = &field.field.ty;
             let lhs = with_ref(&member(quote!(self), field), lhs_is_ref);
-            let rhs = with_ref(&member(quote!(rhs), field), rhs_is_ref);
+            let rhs = with_ref(&member(quote!(__rhs), field), rhs_is_ref);
             let lhs_ty = with_ref(field_ty, lhs_is_ref);
             let rhs_ty = with_ref(field_ty, rhs_is_ref);
             values.push(quote!(<#lhs_ty as #trait_<#rhs_ty>>::#func_name(#lhs, #rhs)));
@@ -217,7 +217,7 @@ fn build_binary_op(
             #[automatically_derived]
             impl #impl_g #trait_<#rhs_ty> for #self_ty #wheres {
                 type Output = #this_ty;
-                fn #func_name(self, rhs: #rhs_ty) -> Self::Output {
+                fn #func_name(self, __rhs: #rhs_ty) -> Self::Output {
                     #this_ty_ident #ctor_args
                 }
             }
@@ -254,7 +254,7 @@ fn build_assign_op(
         for field in fields {
             let field_ty = &field.field.ty;
             let lhs = member(quote!(self), field);
-            let rhs = with_ref(&member(quote!(rhs), field), rhs_is_ref);
+            let rhs = with_ref(&member(quote!(__rhs), field), rhs_is_ref);
             let rhs_ty = with_ref(field_ty, rhs_is_ref);
             exprs.push(quote!(<#field_ty as #trait_<#rhs_ty>>::#func_name(&mut #lhs, #rhs)));
             field.push_bounds_to(use_bounds, kind, &mut wcb);
@@ -266,7 +266,7 @@ fn build_assign_op(
         quote! {
             #[automatically_derived]
             impl #impl_g #trait_<#rhs_ty> for #this_ty #wheres {
-                fn #func_name(&mut self, rhs: #rhs_ty) {
+                fn #func_name(&mut self, __rhs: #rhs_ty) {
                     #(#exprs;)*
                 }
             }
@@ -345,7 +345,7 @@ fn build_clone_for_struct(
     for field in fields {
         let field_ty = &field.field.ty;
         let lhs = &member(quote!(self), field);
-        let rhs = &member(quote!(source), field);
+        let rhs = &member(quote!(__source), field);
         ctor_args.push(quote!(<#field_ty as #trait_>::clone(&#lhs)));
         clone_from_exprs.push(quote!(<#field_ty as #trait_>::clone_from(&mut #lhs, &#rhs)));
         field.push_bounds_to(use_bounds, kind, &mut wcb);
@@ -358,7 +358,7 @@ fn build_clone_for_struct(
             fn clone(&self) -> Self {
                 #this_ty_ident #ctor_args
             }
-            fn clone_from(&mut self, source: &Self) {
+            fn clone_from(&mut self, __source: &Self) {
                 #(#clone_from_exprs;)*
             }
         }
@@ -390,8 +390,8 @@ fn build_clone_for_enum(
             .push_bounds_to_raw(use_bounds, false, kind, &mut wcb);
         for field in &variant.fields {
             let field_ty = &field.field.ty;
-            let lhs = field.make_ident("l");
-            let rhs = field.make_ident("r");
+            let lhs = field.make_ident("__l");
+            let rhs = field.make_ident("__r");
             pat_args_l.push(quote!(#lhs));
             pat_args_r.push(quote!(#rhs));
             ctor_args.push(quote!(<#field_ty as #trait_>::clone(#lhs)));
@@ -423,10 +423,10 @@ fn build_clone_for_enum(
             fn clone(&self) -> Self {
                 #clone_body
             }
-            fn clone_from(&mut self, source: &Self) {
-                match (self, source) {
+            fn clone_from(&mut self, __source: &Self) {
+                match (self, __source) {
                     #(#arms_clone_from,)*
-                    (lhs, rhs) => *lhs = <Self as ::core::clone::Clone>::clone(rhs),
+                    (__lhs, __rhs) => *__lhs = <Self as ::core::clone::Clone>::clone(__rhs),
                 }
             }
         }
@@ -517,7 +517,7 @@ fn build_debug_for_struct(
     Ok(quote! {
         #[automatically_derived]
         impl #impl_g #trait_ for #this_ty #wheres {
-            fn fmt(&self, f: &mut ::core::fmt::Formatter) -> ::core::fmt::Result {
+            fn fmt(&self, __f: &mut ::core::fmt::Formatter) -> ::core::fmt::Result {
                 #expr
             }
         }
@@ -574,7 +574,7 @@ fn build_debug_for_enum(
         let variant_ident = &variant.variant.ident;
         let use_bounds = variant.hattrs.push_bounds_to(use_bounds, kind, &mut wcb);
         let to_expr = |field: &FieldEntry| {
-            let var = field.make_ident("");
+            let var = field.make_ident("__field");
             quote!(#var)
         };
         let expr = build_debug_expr(
@@ -585,7 +585,7 @@ fn build_debug_for_enum(
             to_expr,
             &mut wcb,
         )?;
-        let pat = variant.make_pat("");
+        let pat = variant.make_pat("__field");
         arms.push(quote!(#pat => #expr));
     }
     let wheres = wcb.build(|ty| quote!(#ty : #trait_));
@@ -598,7 +598,7 @@ fn build_debug_for_enum(
     Ok(quote! {
         #[automatically_derived]
         impl #impl_g #trait_ for #this_ty #wheres {
-            fn fmt(&self, f: &mut ::core::fmt::Formatter) -> ::core::fmt::Result {
+            fn fmt(&self, __f: &mut ::core::fmt::Formatter) -> ::core::fmt::Result {
                 #body
             }
         }
@@ -625,7 +625,7 @@ fn build_debug_expr(
     let expr = if let Some(field) = transparent_field {
         field.push_bounds_to(use_bounds, kind, wcb);
         let e = to_expr(field);
-        quote!(::core::fmt::Debug::fmt(#e, f))
+        quote!(::core::fmt::Debug::fmt(#e, __f))
     } else {
         let is_named = match fields_source {
             Fields::Named(_) => true,
@@ -638,7 +638,7 @@ fn build_debug_expr(
         };
         // Names are printed without the `r#` prefix of raw identifiers.
         let name = ident.unraw().to_string();
-        expr.extend(quote!(f.#debug_x(#name)));
+        expr.extend(quote!(__f.#debug_x(#name)));
         for field in fields {
             if !field.hattrs.is_debug_ignore() {
                 let e = to_expr(field);
